@@ -108,7 +108,14 @@ def evaluate(
 
   stdout = io.StringIO()
   with contextlib.redirect_stdout(stdout):
-    if hasattr(code_block.body[-1], 'value'):   # pytype: disable=attribute-error
+    last_stmt = code_block.body[-1]    # pytype: disable=attribute-error
+    # NOTE: only an expression statement or an assignment to plain names can
+    # be split into "execute the rest, then evaluate the value"; other
+    # statements that carry a value (`x += 1`, `x: int = 1`, `a[0] = 1`,
+    # `a, b = 1, 2`) must be executed as statements.
+    if isinstance(last_stmt, ast.Expr) or (
+        isinstance(last_stmt, ast.Assign)
+        and all(isinstance(t, ast.Name) for t in last_stmt.targets)):
       last_expr = code_block.body.pop()  # pytype: disable=attribute-error
       result_vars = [RESULT_KEY]
 
@@ -143,11 +150,26 @@ def evaluate(
       for result_var in result_vars:
         global_vars[result_var] = result
     else:
+      value_assigned = False
+      if (isinstance(last_stmt, (ast.Assign, ast.AugAssign, ast.AnnAssign))
+          and last_stmt.value is not None):
+        # Evaluate the right-hand side once into the result variable, then
+        # perform the assignment from it: `T = V` becomes
+        # `__result__ = V; T = __result__`.
+        hold = ast.Assign(
+            targets=[ast.Name(id=RESULT_KEY, ctx=ast.Store())],
+            value=last_stmt.value)
+        last_stmt.value = ast.Name(id=RESULT_KEY, ctx=ast.Load())
+        ast.copy_location(hold, last_stmt)
+        code_block.body.insert(len(code_block.body) - 1, hold)  # pytype: disable=attribute-error
+        ast.fix_missing_locations(code_block)
+        value_assigned = True
       try:
         exec(compile(code_block, '', mode='exec'), global_vars)  # pylint: disable=exec-used
       except Exception as e:
         raise errors.CodeError(code, e) from e
-      global_vars[RESULT_KEY] = list(global_vars.values())[-1]
+      if not value_assigned:
+        global_vars[RESULT_KEY] = list(global_vars.values())[-1]
 
   if returns_stdout:
     return stdout.getvalue()
